@@ -4,7 +4,7 @@ CONSTANTS
   MinWords = 5
   MaxWords = 5
   Must = {}
-  OptSet <- OptsCS
+  OptSet <- OptsLS
   PathAlpha <- PathAlphaDef
   PathLen = 4
   StratLen = 0
@@ -16,4 +16,3 @@ CONSTANTS
   RandCount = 0
   SelfLen = 0
 INVARIANTS Emit EmitHdr
-VIEW View
